@@ -416,15 +416,19 @@ def main():
             elif r < 0.8: p = rng.choice(pts)                        # a repeated state: distance 0, equal keys in the neighbour sort
             else: p = (q10(rng.uniform(0, 10)), q10(rng.uniform(0, 10)))
             samples.append(p); pts.append(p)
-        elines.append("EST %r %r %r %d W %d %s S %d %s G %r %r T %d %s P %d %s" % (md, bias, thr, iters, len(walls), " ".join("%r %r %r" % w for w in walls), len(starts), " ".join("%r %r" % q for q in starts),
-                      g[0], g[1], len(tape), " ".join("%r" % u for u in tape), len(samples), " ".join("- -" if q is None else "%r %r" % q for q in samples)))
+        real_rng = i % 4 == 3        # every fourth run draws from the library's own generator (mt19937 behind a local seed): RngModel supplies the model's tape
+        lseed = rng.randint(1, 10 ** 9)
+        elines.append("EST %r %r %r %d W %d %s S %d %s G %r %r T %s P %d %s" % (md, bias, thr, iters, len(walls), " ".join("%r %r %r" % w for w in walls), len(starts), " ".join("%r %r" % q for q in starts),
+                      g[0], g[1], ("-1 %d" % lseed) if real_rng else ("%d %s" % (len(tape), " ".join("%r" % u for u in tape))), len(samples), " ".join("- -" if q is None else "%r %r" % q for q in samples)))
         eterms.append("est_float %s %s %s %d [%s] [%s] (%s, %s) [%s] [%s]" % (cfl(md), cfl(bias), cfl(thr), iters, "; ".join("(%s, %s, %s)" % tuple(map(cfl, w)) for w in walls), "; ".join("(%s, %s)" % tuple(map(cfl, q)) for q in starts),
-                      cfl(g[0]), cfl(g[1]), "; ".join(map(cfl, tape)), "; ".join("None" if q is None else "Some (%s, %s)" % tuple(map(cfl, q)) for q in samples)))
+                      cfl(g[0]), cfl(g[1]), ("XRNG%dXEND" % lseed) if real_rng else "; ".join(map(cfl, tape)), "; ".join("None" if q is None else "Some (%s, %s)" % tuple(map(cfl, q)) for q in samples)))
+    import re as _re2
+    eterms = [_re2.sub(r"\[XRNG(\d+)XEND\]", lambda m_: "(rng_uniform01_stream %s%%N 130)" % m_.group(1), t_) for t_ in eterms]
     rce, oce, ece, sce = vf.sh([rdrv], input="\n".join(elines) + "\n", timeout=900); c.step("correspond:impl-est", rdrv, sce, rce == 0)
     iel = [l for l in oce.split("\n") if l.startswith("est")]
     mel = []; tm = 0.0
     for a0 in range(0, len(eterms), 150):
-        src = "From Coq Require Import Floats List. From OmplV Require Import EstFloat. Import ListNotations.\nLocal Open Scope float_scope.\nEval vm_compute in [\n" + ";\n".join(eterms[a0:a0 + 150]) + "].\n"
+        src = "From Coq Require Import Floats List NArith. From OmplV Require Import EstFloat RngModel. Import ListNotations.\nLocal Open Scope float_scope.\nEval vm_compute in [\n" + ";\n".join(eterms[a0:a0 + 150]) + "].\n"
         pth = os.path.join(c.outdir, "est_cases_%d.v" % a0); open(pth, "w").write(src)
         rcm, ocm, ecm, scm = vf.sh("timeout 900 coqc -Q %s OmplV %s" % (vf.COQ, pth), timeout=1000); tm += scm
         if rcm != 0: c.broken.append("model evaluation (coqc est_cases) failed: " + (ecm or ocm)[-300:]); break
